@@ -291,7 +291,12 @@ def register(reg):
     from pyvc.values import MNS as _NS, MFn as _MF
     _rx = FnSpec('re.compile', params=[('pattern', STR)], ret=ANY, pure=True, assumed=True)
     _esc = FnSpec('re.escape', params=[('s', STR)], ret=STR, pure=True, assumed=True)
-    reg.names['re'] = _NS('re', {'compile': _MF('spec', 're.compile', spec=_rx), 'escape': _MF('spec', 're.escape', spec=_esc)})
+    if isinstance(reg.names.get('re'), _NS):
+        reg.names['re'].members.update({'compile': _MF('spec', 're.compile', spec=_rx),
+                                        'escape': _MF('spec', 're.escape', spec=_esc)})
+    else:
+        reg.names['re'] = _NS('re', {'compile': _MF('spec', 're.compile', spec=_rx),
+                                     'escape': _MF('spec', 're.escape', spec=_esc)})
     reg.names['_check_fs'] = FnSpec('_check_fs', params=[('inference_state', ANY), ('file_io', ANY), ('regex', ANY)],
                                     ret=Opt(ANY), pure=True, assumed=False, note='C17._check_fs')
 
